@@ -381,7 +381,8 @@ def generator_resume_traces(tid0, rng, tier, meta):
                 first, rest = omen.resume_split(g, lv, j, work)
                 tid += 1
                 out.append({'tid': tid, 'kind': 'resume', 'm': model, 'j': j,
-                            'full': [omen.ids_of(s, ids) for s in full], 'rest': [omen.ids_of(s, ids) for s in rest]})
+                            'full': [omen.ids_of(s, ids) for s in full],
+                            'rest': [omen.ids_of(s, ids) for s in rest] if rest is not None else [[-1]]})
                 meta[tid] = {'kind': 'MarkovCracker save_session/load_session', 'level': lv, 'j': j, 'n': len(full)}
     return out, tid
 
